@@ -21,9 +21,11 @@ CORPUS = {
     'deep': '(a / A :r (b / B :r (c / C :r (d / D :r-of a) :q d)) :q b)',
     'meta': '# ::k\n# ::snt a ; b\n(a / A :r (b / B))',
     'overinv': '(a / A :ARG0-of-of (b / B) :domain-of 7 :r-of-of-of b)',
+    'include': '(w / whole :ARG1-of (i / include-91 :ARG2 (p / piece)) :ARG0 (b / benefit-01 :ARG0 w :ARG1 p))',
 }
 MARKERLESS = {
     'm_two_unreach': ([('a', ':instance', 'A'), ('b', ':instance', 'B'), ('c', ':instance', 'C'), ('d', ':instance', 'D'), ('a', ':foo', 'x')], 'a'),
+    'm_implicit': ([('a', ':instance', 'alpha'), ('b', ':instance', 'B'), ('b', ':r', 'a'), ('a', ':ARG0', 'e')], None),
     'm_shuffled': ([('c', ':r', 'a'), ('a', ':instance', 'A'), ('b', ':r', 'c'), ('c', ':instance', 'C'), ('b', ':instance', 'B'), ('a', ':q', 0)], 'b'),
 }
 
@@ -68,7 +70,8 @@ def build(name):
         g = penman.decode(s, model=amr)
         t = penman.parse(s)
     h = penman.decode('# ::id 9\n(a / alpha :ARG0~1 (e / eps~2) :ARG1 (f / phi :ARG0 e))', model=amr)
-    return {'g': g, 't': t, 's': s, 'h': h}
+    return {'g': g, 't': t, 's': s, 'h': h, 'vars': {'a', 'b', '_'}, 'triple': ('a', ':mod', 'b'),
+            'three': [('_', ':instance', 'have-mod-91'), ('_', ':ARG1', 'a'), ('_', ':ARG2', 'b')]}
 
 
 def calls():
@@ -116,6 +119,13 @@ def calls():
     C['alignments'] = ('g', lambda a, m: {k: str(v) for k, v in surface.alignments(a['g']).items()})
     C['role_alignments'] = ('g', lambda a, m: {k: str(v) for k, v in surface.role_alignments(a['g']).items()})
     C['union_alignments'] = ('gh', lambda a, m: {k: str(v) for k, v in surface.alignments(a['h'] | a['g']).items()})
+    C['model_reify'] = ('g', lambda a, m: m.reify(a['triple'], a['vars']))
+    C['model_reify_twice'] = ('g', lambda a, m: [m.reify(a['triple'], a['vars']), m.reify(a['triple'], a['vars'])])
+    C['model_dereify'] = ('g', lambda a, m: m.dereify(*a['three']))
+    C['model_invert'] = ('g', lambda a, m: [m.invert(t) for t in a['g'].triples if t[1] != ':instance'])
+    C['model_deinvert'] = ('g', lambda a, m: [m.deinvert(t) for t in a['g'].triples])
+    C['model_canonicalize'] = ('g', lambda a, m: [m.canonicalize(t) for t in a['g'].triples])
+    C['model_keys'] = ('g', lambda a, m: [[m.canonical_order(t[1]), m.alphanumeric_order(t[1]), m0.canonical_order(t[1])] for t in a['g'].triples])
     C['union_str'] = ('gh', lambda a, m: str(a['g'] | a['h']))
     return C
 
